@@ -3,6 +3,7 @@ package stableopt
 import (
 	"bytes"
 	"fmt"
+	"google.golang.org/protobuf/encoding/prototext"
 	"sort"
 	"strings"
 	"testing"
@@ -365,6 +366,9 @@ func checkStrip(r *vlib.Run, id, where string, fd *descriptorpb.FileDescriptorPr
 		key = string(before)
 	}
 	r.Eval(key)
+	if key != "" {
+		r.Sample("file with source-retention options ("+where+")", map[string]any{"file": fd.GetName(), "descriptor (text format, clipped)": trunc(prototext.MarshalOptions{Multiline: true, Resolver: types}.Format(dec), 1500)})
+	}
 	// (1) output == reference
 	diffs := diffStrip(got, ref)
 	seen := map[string]bool{}
